@@ -626,8 +626,10 @@ class RTDCBase(abc.ABC):
         xs = RTDCBase._apply_scale(x, xscale, xax)
         ys = RTDCBase._apply_scale(y, yscale, yax)
 
+        # Requesting more events than available means "all events".
         _, _, idx = downsampling.downsample_grid(xs, ys,
-                                                 samples=downsample,
+                                                 samples=min(downsample,
+                                                             x.size),
                                                  remove_invalid=remove_invalid,
                                                  ret_idx=True)
 
